@@ -394,6 +394,17 @@ def _sub_bodies(node) -> List[List[ast.AST]]:
 
 # --------------------------------------------------------------------------- ast helpers
 
+def clone_ast(n):
+    """Structural copy of an AST (fields only).  copy.deepcopy would follow the `_parent` back-links the engine
+    adds and copy the whole module for every call."""
+    if isinstance(n, ast.AST):
+        new = type(n)(**{f: clone_ast(v) for f, v in ast.iter_fields(n)})
+        return ast.copy_location(new, n) if hasattr(n, "lineno") else new
+    if isinstance(n, list):
+        return [clone_ast(x) for x in n]
+    return n
+
+
 def parent(node):
     return getattr(node, "_parent", None)
 
